@@ -365,7 +365,7 @@ def eval_dests(group, i):
     seen = []
     from pdfminer import settings
     passes = [(False, doc)]
-    if i % 2 == 1 or len(group) <= 12:
+    if i % 3 == 0:
         passes.append((True, None))         # the same lookups with settings.STRICT = True: same values, absent -> not found
     for strict, sdoc in passes:
       was = settings.STRICT
